@@ -1,11 +1,118 @@
 (** C10 -- path tree is safe and per-path atomic under concurrent use.
     This file holds only the property theorems, each closed by [exact] of a
-    lemma proved elsewhere, with [Print Assumptions] beneath. *)
-From Gnmi Require Import Base.Prelude CTree.CTreeModel CTree.CTreeCheck CTree.CTreeConc CTree.LinCheck CTree.C10Check.
+    lemma proved elsewhere, with [Print Assumptions] beneath.
 
+    The model is the labelled transition system of CTree/CTreeConc.v: a heap
+    of nodes with RWMutex state, one thread per API call, one step per lock
+    operation or guarded critical section.  [reach ops s]: state [s] is
+    reachable from the empty tree by SOME interleaving of the calls [ops]
+    (every schedule, no bound on the number of threads or steps). *)
+From Gnmi Require Import Base.Prelude CTree.CTreeModel CTree.CTreeCheck CTree.CTreeConc
+  CTree.CTreeConcProofs CTree.LinCheck CTree.C10Check.
+
+(** lock coupling: a tree operation that holds any lock holds the root lock *)
+Theorem C10_lock_coupling :
+  forall ops s i t,
+    reach ops s -> nth_error (thr s) i = Some t -> is_handle_pc (tpc t) = false ->
+    held t <> [] -> exists m, In (0%nat, m) (held t).
+Proof. exact lock_coupling. Qed.
+Print Assumptions C10_lock_coupling.
+
+(** locks are acquired in strictly increasing node id (= strictly increasing depth) *)
+Theorem C10_lock_order :
+  forall ops s i t n,
+    reach ops s -> nth_error (thr s) i = Some t ->
+    (lockop_of t = LRLock n \/ lockop_of t = LReq n \/ lockop_of t = LAcq n) ->
+    Forall (fun x => (fst x < n)%nat) (held t).
+Proof. exact lock_order. Qed.
+Print Assumptions C10_lock_order.
+
+(** no deadlock: while some call has not returned, some thread can step, even
+    with every announced writer preferred over arriving readers *)
+Theorem C10_deadlock_free :
+  forall ops s,
+    reach ops s ->
+    (exists i t, nth_error (thr s) i = Some t /\ is_done (tpc t) = false) ->
+    exists j, enabled_strict s j = true.
+Proof. exact deadlock_free. Qed.
+Print Assumptions C10_deadlock_free.
+
+(** no data race, except a leaf-handle operation against Delete *)
+Theorem C10_no_data_race :
+  forall ops s i j ti tj,
+    reach ops s -> i <> j ->
+    nth_error (thr s) i = Some ti -> nth_error (thr s) j = Some tj ->
+    race_between (hp s) ti tj = true ->
+    (is_handle_pc (tpc ti) = true /\ exists q, tpc tj = PDelCrit q) \/
+    (is_handle_pc (tpc tj) = true /\ exists q, tpc ti = PDelCrit q).
+Proof. exact no_data_race. Qed.
+Print Assumptions C10_no_data_race.
+
+(** ... and that exception happens (known finding KF-C10-1, DESIGN 7.17) *)
+Theorem C10_handle_delete_race_refuted :
+  exists ops s i j ti tj,
+    reach ops s /\ i <> j /\
+    nth_error (thr s) i = Some ti /\ nth_error (thr s) j = Some tj /\
+    is_handle_pc (tpc ti) = true /\ (exists q, tpc tj = PDelCrit q) /\
+    race_between (hp s) ti tj = true.
+Proof. exact handle_delete_race_refuted. Qed.
+Print Assumptions C10_handle_delete_race_refuted.
+
+(** a Delete in its critical section excludes every other tree operation *)
+Theorem C10_delete_atomic :
+  forall ops s i j ti tj q,
+    reach ops s -> i <> j ->
+    nth_error (thr s) i = Some ti -> nth_error (thr s) j = Some tj ->
+    tpc ti = PDelCrit q ->
+    (is_handle_pc (tpc tj) = false -> held tj = []) /\ (forall m, ~ In (0%nat, m) (held tj)).
+Proof. exact delete_atomic. Qed.
+Print Assumptions C10_delete_atomic.
+
+(** the re-check after the reader->writer exchange: no step replaces or drops
+    an existing child *)
+Theorem C10_upgrade_recheck :
+  forall ops s i s' p n,
+    forallb quiet_op ops = true -> reach ops s -> step s i = Some s' ->
+    resolve (hp s) 0 p = Some n -> resolve (hp s') 0 p = Some n.
+Proof. exact upgrade_recheck. Qed.
+Print Assumptions C10_upgrade_recheck.
+
+(** concurrent adds all survive *)
+Theorem C10_concurrent_adds_survive :
+  forall ops s i t p v,
+    forallb quiet_op ops = true -> reach ops s ->
+    nth_error (thr s) i = Some t -> nth_error ops i = Some (CAdd p v) ->
+    tpc t = PDone (XAdd true) -> leaf_at (hp s) p.
+Proof. exact concurrent_adds_survive. Qed.
+Print Assumptions C10_concurrent_adds_survive.
+
+(** the executable linearizability checker is sound (this is K_P) *)
 Theorem C10_lin_check_sound :
   forall (St Op Rt : Type) (sstep : St -> Op -> Rt -> list St) (pure : Op -> Rt -> bool) (s0 : St)
          (h : list (@opr Op Rt)) (fin : St -> bool),
     lin_check sstep pure s0 h fin = true -> linearizable sstep s0 h (fun s => fin s = true).
 Proof. exact (@lin_check_sound). Qed.
 Print Assumptions C10_lin_check_sound.
+
+(** an accepted window of observations is linearizable w.r.t. the flat
+    prefix-free map of C09 and ends in the observed content
+    (= quiescent serializability of what the implementation did) *)
+Theorem C10_window_check_linearizable :
+  forall s0 ops final,
+    window_check s0 ops final = [] ->
+    linearizable spec_step s0 (filter (fun o => negb (is_query o)) ops)
+                 (fun f => same_content f final = true).
+Proof. exact window_check_linearizable. Qed.
+Print Assumptions C10_window_check_linearizable.
+
+(* linearizable_point_ops (full statement, NOT proved over the LTS):
+     forall ops s, reach ops s -> all threads done ->
+       linearizable (flat specification of C09) [] (history of the run) (abs (hp s) = .)
+   with linearization points: the write step of Add (PAddTCrit / the inserting
+   PAddSlow), the final read of Get, the critical section of Delete.
+   Proved parts: C10_delete_atomic (Delete's point is exclusive),
+   C10_upgrade_recheck + C10_concurrent_adds_survive (Add's effect is never
+   undone by another Add), C10_no_data_race (every point is a guarded access).
+   quiescent_serializable and query_stability over the LTS: not proved; they
+   are checked on the implementation's histories by K_P
+   (C10_window_check_linearizable, C10Check.query_ok). *)
